@@ -27,7 +27,7 @@ def _lower_ifexp_stmt(st):
         a_ = ast.copy_location(ast.Assign(targets=copy.deepcopy(st.targets), value=e.body, lineno=st.lineno), st)
         b_ = ast.copy_location(ast.Assign(targets=copy.deepcopy(st.targets), value=e.orelse, lineno=st.lineno), st)
         return [ast.copy_location(ast.If(test=e.test, body=[a_], orelse=[b_]), st)]
-    if isinstance(st, ast.AnnAssign) and st.value is not None and isinstance(st.value, ast.IfExp) and isinstance(st.target, ast.Name):
+    if isinstance(st, ast.AnnAssign) and st.value is not None and isinstance(st.value, ast.IfExp) and isinstance(st.target, (ast.Name, ast.Attribute)):
         e = st.value
         decl = ast.copy_location(ast.AnnAssign(target=copy.deepcopy(st.target), annotation=st.annotation, value=None, simple=st.simple), st)
         a_ = ast.copy_location(ast.Assign(targets=[copy.deepcopy(st.target)], value=e.body, lineno=st.lineno), st)
@@ -196,9 +196,183 @@ def _annotate_raises(tree: ast.Module) -> None:
                     n._exc_resolved = vals[0]  # type: ignore[attr-defined]
 
 
+def _chain_text(e):
+    """`a.b.c` for an attribute chain rooted at a Name, else None."""
+    parts = []
+    while isinstance(e, ast.Attribute):
+        parts.append(e.attr)
+        e = e.value
+    if isinstance(e, ast.Name):
+        return ".".join([e.id] + list(reversed(parts)))
+    return None
+
+
+def _own_walk(fn):
+    """Nodes of a function body without descending into nested defs / lambdas / classes."""
+    stack = list(fn.body)
+    while stack:
+        n = stack.pop()
+        yield n
+        if isinstance(n, (ast.FunctionDef, ast.AsyncFunctionDef, ast.ClassDef, ast.Lambda)):
+            continue
+        stack.extend(ast.iter_child_nodes(n))
+
+
+def _inline_local_aliases(tree: ast.Module) -> bool:
+    """`pending = self._hooks` ... `pending.pop()`  ->  `self._hooks.pop()`.
+
+    A local that is bound exactly once, at the top level of the function body, to an attribute
+    chain rooted at a parameter, is the same object as the chain for as long as no prefix of the
+    chain is rebound in the function; its later uses are replaced by the chain (the binding
+    itself stays)."""
+    changed = False
+    for fn in ast.walk(tree):
+        if not isinstance(fn, (ast.FunctionDef, ast.AsyncFunctionDef)):
+            continue
+        params = {a.arg for a in fn.args.posonlyargs + fn.args.args + fn.args.kwonlyargs}
+        stores: dict = {}
+        rebound_chains = set()
+        declared = set()
+        for n in _own_walk(fn):
+            if isinstance(n, (ast.Global, ast.Nonlocal)):
+                declared |= set(n.names)
+            elif isinstance(n, ast.Name) and isinstance(n.ctx, (ast.Store, ast.Del)):
+                stores[n.id] = stores.get(n.id, 0) + 1
+            elif isinstance(n, ast.ExceptHandler) and n.name:
+                stores[n.name] = stores.get(n.name, 0) + 1
+            elif isinstance(n, ast.Attribute) and isinstance(n.ctx, (ast.Store, ast.Del)):
+                c = _chain_text(n)
+                if c:
+                    rebound_chains.add(c)
+        captured = {x.id for sub in _own_walk(fn) if isinstance(sub, (ast.FunctionDef, ast.AsyncFunctionDef, ast.Lambda)) for x in ast.walk(sub) if isinstance(x, ast.Name)}
+        aliases = {}
+        for st in _own_walk(fn):
+            if isinstance(st, ast.Assign) and len(st.targets) == 1 and isinstance(st.targets[0], ast.Name):
+                v = st.targets[0].id
+                chain = _chain_text(st.value) if isinstance(st.value, ast.Attribute) else None
+                if chain is None or stores.get(v) != 1 or v in declared or v in params or v in captured:
+                    continue
+                root = chain.split(".")[0]
+                if root not in params or stores.get(root):
+                    continue
+                prefixes = {".".join(chain.split(".")[: i + 1]) for i in range(1, len(chain.split(".")))}
+                if prefixes & rebound_chains:
+                    continue
+                aliases[v] = (st, st.value)
+        if not aliases:
+            continue
+
+        class R(ast.NodeTransformer):
+            def visit_FunctionDef(self, node):
+                return node
+
+            visit_AsyncFunctionDef = visit_FunctionDef
+            visit_Lambda = visit_FunctionDef
+            visit_ClassDef = visit_FunctionDef
+
+            def visit_Name(self, node):
+                nonlocal changed
+                if isinstance(node.ctx, ast.Load) and node.id in aliases and node.lineno > aliases[node.id][0].lineno:
+                    changed = True
+                    return ast.copy_location(copy.deepcopy(aliases[node.id][1]), node)
+                return node
+
+        r = R()
+        for i, st in enumerate(fn.body):
+            fn.body[i] = r.visit(st)
+    return changed
+
+
+_CONST_VALUE = (ast.Constant,)
+
+
+def _is_const_value(e) -> bool:
+    if isinstance(e, ast.Constant):
+        return not isinstance(e.value, (bytes,)) or True
+    if isinstance(e, ast.UnaryOp) and isinstance(e.op, ast.USub) and isinstance(e.operand, ast.Constant):
+        return True
+    if isinstance(e, ast.Attribute):
+        return _chain_text(e) is not None
+    if isinstance(e, ast.Tuple):
+        return all(_is_const_value(x) or isinstance(x, ast.Name) for x in e.elts)
+    return False
+
+
+def _inline_module_constants(tree: ast.Module) -> bool:
+    """A module-level name bound exactly once to a literal (number, string, tuple of such, or a
+    dotted name such as `signal.SIGTERM` / `ContextState.closing`) is replaced by the literal
+    inside the functions of that module (hoisting a constant out of a function is a no-op)."""
+    binds: dict = {}
+    counts: dict = {}
+    for st in tree.body:
+        tg = None
+        if isinstance(st, ast.Assign) and len(st.targets) == 1 and isinstance(st.targets[0], ast.Name):
+            tg, val = st.targets[0].id, st.value
+        elif isinstance(st, ast.AnnAssign) and isinstance(st.target, ast.Name) and st.value is not None:
+            tg, val = st.target.id, st.value
+        if tg is not None:
+            counts[tg] = counts.get(tg, 0) + 1
+            if _is_const_value(val):
+                binds[tg] = val
+    for n in ast.walk(tree):
+        if isinstance(n, ast.Global):
+            for x in n.names:
+                counts[x] = 99
+        elif isinstance(n, ast.Name) and isinstance(n.ctx, (ast.Store, ast.Del)) and n.id in binds:
+            counts[n.id] = counts.get(n.id, 0) + 1
+    # every Store counted twice for the binding itself (once above, once in the walk)
+    consts = {k: v for k, v in binds.items() if counts.get(k) == 2 and k != "__all__" and not (k.startswith("__") and k.endswith("__"))}
+    if not consts:
+        return False
+    changed = False
+    for fn in ast.walk(tree):
+        if not isinstance(fn, (ast.FunctionDef, ast.AsyncFunctionDef)):
+            continue
+        local = {a.arg for a in fn.args.posonlyargs + fn.args.args + fn.args.kwonlyargs}
+        local |= {x.id for x in ast.walk(fn) if isinstance(x, ast.Name) and isinstance(x.ctx, (ast.Store, ast.Del))}
+
+        class R(ast.NodeTransformer):
+            def visit_Name(self, node):
+                nonlocal changed
+                if isinstance(node.ctx, ast.Load) and node.id in consts and node.id not in local:
+                    changed = True
+                    return ast.copy_location(copy.deepcopy(consts[node.id]), node)
+                return node
+
+        r = R()
+        fn.body = [r.visit(st) for st in fn.body]
+    return changed
+
+
+def _flatten_star_tuples(tree: ast.Module) -> bool:
+    """`f(*(a, b), c)` -> `f(a, b, c)`"""
+    changed = False
+    for n in ast.walk(tree):
+        if isinstance(n, ast.Call) and any(isinstance(a, ast.Starred) and isinstance(a.value, (ast.Tuple, ast.List)) and not any(isinstance(e, ast.Starred) for e in a.value.elts) for a in n.args):
+            new = []
+            for a in n.args:
+                if isinstance(a, ast.Starred) and isinstance(a.value, (ast.Tuple, ast.List)) and not any(isinstance(e, ast.Starred) for e in a.value.elts):
+                    new.extend(a.value.elts)
+                    changed = True
+                else:
+                    new.append(a)
+            n.args = new
+    return changed
+
+
 def normalize_tree(tree: ast.Module) -> bool:
     _annotate_raises(tree)
     changed_any = False
+    if _flatten_star_tuples(tree):
+        changed_any = True
+    if not getattr(tree, "_norm_consts_done", False):
+        if _inline_module_constants(tree):
+            changed_any = True
+        tree._norm_consts_done = True  # type: ignore[attr-defined]
+    for _ in range(4):  # aliases of aliases
+        if not _inline_local_aliases(tree):
+            break
+        changed_any = True
     for _ in range(6):
         if not _rewrite_blocks(tree):
             break
